@@ -281,6 +281,12 @@ func NewRes(spec *Spec, seed uint64, tr *kit.Trace) *Res {
 	var rmu sync.Mutex
 	r.oldRand = bridge.SetAuthorityRandN(func(n int) int { rmu.Lock(); defer rmu.Unlock(); return rr.Intn(n) })
 	defaults.Register()
+	// The resolver starts a goroutine that polls middleware.Ready() every 50 ms before it sends
+	// the priming query; whether its first look comes before or after Setup publishes the
+	// pipeline is a real-scheduler race (0 s or 50 ms). A constructor registered last builds
+	// nothing and waits for every goroutine started so far to block: the poller has then seen
+	// "not ready" in every run, and priming starts at 50 ms.
+	middleware.Register("zz-verif-gate", func(*config.Config) middleware.Handler { kit.Settle(); return nil })
 	middleware.Setup(c)
 	r.Srv = server.New(c)
 	return r
